@@ -28,11 +28,18 @@ TRUSTED = [
     "libm sqrt enters as a monotone function parameter; theorems over exact ordered fields",
     "the ROBDD store half of the property is proved in FV/Props/C07.lean (append-only, semantics-preserving store)",
     "fork() gives the fresh interpreter: the parent imports the library but never executes an operation",
+    "operation kinds probed = the ones the property lists (netlist load, die decomposition, allocation load with and without "
+    "a netlist before it, refinement, orthogon recognition, SAT encoding, strop, legaliser model construction); netgen, "
+    "spectral, force, glbfloor, draw, the FloorSet manager and the legaliser's solve loop are NOT executed as history or probe: "
+    "state they might keep is outside what this check sees",
+    "a history-dependent probe is attributed to the open finding only if (a) the tolerance in force is a legitimate proposal of "
+    "an earlier design, (b) a control run in a third fresh interpreter with ONLY that tolerance preset reproduces the "
+    "after-history digest, and (c) the probe is not Robust for the interval of proposals; anything else is a VIOLATION",
 ]
 
 K_DIE, K_NET = 10e-12, 1e-12
 
-KINDS = ["netlist", "die", "alloc", "alloctext", "sat", "strop", "legal"]
+KINDS = ["netlist", "die", "alloc", "alloctext", "allocfirst", "sat", "strop", "legal"]
 
 
 # ------------------------------------------------------------------ design generators (pure data)
@@ -163,6 +170,21 @@ def gen_alloctext(rng: random.Random, s: float, defect: bool, L: int = 10) -> di
             "rects": [[(x, y, w, h) for (x, y, w, h) in cells]], "proposal": min(bw, bh, math.sqrt(2 * cw * ch)) * K_NET}
 
 
+def gen_allocfirst(rng: random.Random, s: float, defect: bool, L: int = 10) -> dict:
+    """an allocation document loaded with NO netlist before it: `Allocation.__init__` itself proposes the tolerance
+    (1e-12 x the smaller side of the bounding box of its cells) when it is the first design of the process."""
+    nx, ny = rng.randint(2, 4), rng.randint(2, 3)
+    cw, ch = rng.choice([1, 2, 1.5]) * s, rng.choice([1, 2]) * s
+    cells = [((i + 0.5) * cw, (j + 0.5) * ch, cw, ch) for i in range(nx) for j in range(ny)]
+    if defect:   # two cells overlapping by a clear margin: rejected whatever the tolerance
+        x, y, w, h = cells[0]
+        cells.append((x + w / 4, y, w, h))
+    rows = [f"[[{fmt(x)}, {fmt(y)}, {fmt(w)}, {fmt(h)}], {{S0: {fmt(rng.choice([0.2, 0.4, 0.5]))}, S1: {fmt(rng.choice([0.1, 0.3, 0.5]))}}}]"
+            for (x, y, w, h) in cells]
+    return {"kind": "allocfirst", "scale": s, "alloc": "[" + ",\n ".join(rows) + "]\n", "thr": rng.choice([0.45, 0.6, 0.9]),
+            "rects": [[(x, y, w, h) for (x, y, w, h) in cells]], "proposal": min(nx * cw, ny * ch) * K_NET}
+
+
 def gen_sat(rng: random.Random, s: float, defect: bool, L: int = 10) -> dict:
     if rng.random() < 0.5:
         # "rect-like" problems: weighted at-least constraints over 4-8 block variables with area-sized coefficients
@@ -208,7 +230,7 @@ def gen_legal(rng: random.Random, s: float, defect: bool, L: int = 10) -> dict:
             "proposal": n["proposal"]}
 
 
-GEN = {"alloctext": gen_alloctext, "netlist": gen_netlist, "die": gen_die, "alloc": gen_alloc, "sat": gen_sat, "strop": gen_strop, "legal": gen_legal}
+GEN = {"alloctext": gen_alloctext, "allocfirst": gen_allocfirst, "netlist": gen_netlist, "die": gen_die, "alloc": gen_alloc, "sat": gen_sat, "strop": gen_strop, "legal": gen_legal}
 
 
 # ------------------------------------------------------------------ running an operation (child processes only)
@@ -278,18 +300,41 @@ def run_op(d: dict):
     if kind == "alloctext":
         from frame.netlist.netlist import Netlist
         from frame.allocation.allocation import Allocation
+        nprop = None
         try:
             n = Netlist(d["netlist"])
+            dims = []
+            for r in n.rectangles:
+                dims += [r.shape.w, r.shape.h]
+            for m in n.modules:
+                if m.area() > 0:
+                    dims.append(math.sqrt(m.area()))
+            nprop = ("net", dims)
             a = Allocation(d["alloc"])
             a1 = a.initial_allocation(n, False)
             must = a1.must_be_refined(d["thr"])
             a2 = a1.refine(d["thr"], 1)
         except AssertionError:
-            return ["rejected", "Assert"], None
+            return ["rejected", "Assert"], nprop
         def cells2(al):
             return sorted([_num(v) for v in c.rect.vector_spec[:4]] + [c.rect.vector_spec[4], c.depth, bool(c.rect.fixed),
                           sorted([k, _num(v)] for k, v in c.alloc.items())] for c in al.allocations)
-        return ["ok", must, cells2(a1), cells2(a2)], None
+        return ["ok", must, cells2(a1), cells2(a2)], nprop
+    if kind == "allocfirst":
+        from frame.allocation.allocation import Allocation
+        try:
+            a = Allocation(d["alloc"])
+        except AssertionError:
+            return ["rejected", "Assert"], None
+        bb = a.bounding_box
+        aprop = ("alloc", [bb.shape.w, bb.shape.h])
+        must = a.must_be_refined(d["thr"])
+        a2 = a.refine(d["thr"], 1)
+        a3 = a2.uniform_refinement_depth()
+        def cells3(al):
+            return sorted([_num(v) for v in c.rect.vector_spec[:4]] + [c.rect.vector_spec[4], c.depth,
+                          sorted([k, _num(v)] for k, v in c.alloc.items())] for c in al.allocations)
+        return ["ok", must, cells3(a), cells3(a2), cells3(a3)], aprop
     if kind == "sat":
         from tools.rect.satmanager import SATManager
         from tools.rect.pseudobool import Expr
@@ -339,7 +384,7 @@ def run_op(d: dict):
             inst.append(sorted(str((r.rows.low, r.rows.high, r.columns.low, r.columns.high)) for r in i.rectangles()))
         return ["strop", ok, sorted(map(str, inst))], None
     if kind == "legal":
-        return run_legal(d), None
+        return run_legal(d)
     raise ValueError(kind)
 
 
@@ -348,11 +393,19 @@ def run_legal(d: dict):
     try:
         import legal_common  # provided by the C09 harness when present
     except Exception:
-        return ["legal", "unavailable"]
+        return ["legal", "unavailable"], None
+    nprop = None
     # ONE model construction per probe (a second one in the same process would itself be "history")
     try:
         b = legal_common.Built(d["netlist"], float(d["W"]), float(d["H"]), float(d.get("max_ratio", 2.0)), reset_epsilon=False)
         try:
+            dims = []
+            for r in b.netlist.rectangles:
+                dims += [r.shape.w, r.shape.h]
+            for m in b.netlist.modules:
+                if m.area() > 0:
+                    dims.append(math.sqrt(m.area()))
+            nprop = ("net", dims)
             dig = ["utils " + legal_common.ser_utils(b.utils), "other-groups " + repr(sorted(b.other_groups.items()))] \
                 + sorted(legal_common.ser_eq(g, e) for g, e in b.eqs)
             # the rest of what the built model exposes publicly: the variables its objective / undo() range over
@@ -362,8 +415,8 @@ def run_legal(d: dict):
         finally:
             legal_common.cleanup()
     except AssertionError:
-        return ["rejected", "Assert"]
-    return dig
+        return ["rejected", "Assert"], nprop
+    return dig, nprop
 
 
 # ------------------------------------------------------------------ process-wide registers other than the tolerances
@@ -386,6 +439,8 @@ def footprint() -> dict:
     if sp is not None and hasattr(sp, "Strop"):
         d = getattr(sp.Strop.__init__, "__defaults__", None) or ()
         f["strop_defaults"] = [list(x) if isinstance(x, list) else repr(x) for x in d]
+        if hasattr(sp, "EMPTY_INTERVAL"):
+            f["strop_empty_interval"] = repr(sp.EMPTY_INTERVAL)
     return f
 
 
@@ -486,7 +541,12 @@ def child_regs(ops):
             e = str(round(et.epsilon.evaluate()))
         except (NameError, AttributeError):
             e = "none"
-        tail = "eps=%s debug=%s names=%d" % (e, et.debug_print, len(et.named_variables))
+        # the two module attributes are observation points named by the property; if a refactoring renames them the
+        # field is reported as "na" and not compared
+        dbg = getattr(et, "debug_print", None)
+        nv = getattr(et, "named_variables", None)
+        tail = "eps=%s debug=%s names=%s" % (e, dbg if isinstance(dbg, int) else "na",
+                                             len(nv) if isinstance(nv, (set, frozenset, list, dict)) else "na")
     finally:
         shutil.rmtree(getattr(g, "_path", "") or "/nonexistent", ignore_errors=True)
     return " ".join(outs) + " | " + tail
@@ -587,6 +647,8 @@ def proposal_value(prop) -> float | None:
     kind, dims = prop
     if kind == "die":
         return min(dims[0], dims[1]) * K_DIE
+    if kind == "alloc":
+        return K_NET * min(dims[0], dims[1])
     if kind == "net":
         m = math.inf
         for v in dims:
@@ -720,6 +782,22 @@ def run(ctx: Ctx) -> None:
         results = pool.map(child, jobs, chunksize=1)
         reg_results = pool.map(child_regs, reg_tasks, chunksize=1)
     regs_stream(ctx, reg_tasks, reg_results)
+    # control runs for the probes whose digest depends on the history: a third fresh interpreter in which only the
+    # tolerance the history left in force is preset.  The open finding may explain a difference only if this control
+    # reproduces the after-history digest (the tolerance ALONE explains it).
+    differing = []
+    for i, (hist, probe) in enumerate(tasks):
+        same, _ = digests_equal(results[2 * i][0], results[2 * i + 1][0])
+        if not same:
+            st = results[2 * i + 1][1]
+            before_probe = st[-2] if len(st) >= 2 else [-1.0, -1.0]
+            differing.append((i, (before_probe, probe)))
+    control = {}
+    if differing:
+        with mpctx.Pool(processes=min(16, os.cpu_count() or 4), maxtasksperchild=1) as pool:
+            for (i, _), dig in zip(differing, pool.map(child_control, [t for _, t in differing], chunksize=1)):
+                control[i] = dig
+    ctx.count("control-runs", len(differing))
     reqs, expect = [], []
     for i, (hist, probe) in enumerate(tasks):
         fresh_dig, fresh_states, fresh_props, fresh_feet = results[2 * i]
@@ -731,16 +809,15 @@ def run(ctx: Ctx) -> None:
             if bad:
                 ctx.spec_fail("registers_untouched", inp, {"after_op": k, "import_time_vs_now": bad}, size=len(hist))
                 break
-        nontrivial = any(h["kind"] in ("netlist", "die", "alloc", "sat", "legal") for h in hist)
+        nontrivial = any(h["kind"] in ("netlist", "die", "alloc", "alloctext", "allocfirst", "sat", "legal") for h in hist)
         ctx.case("fork", (json.dumps(hist, sort_keys=True), json.dumps(probe, sort_keys=True)), nontrivial,
                  sample={"probe_kind": probe["kind"], "scale": probe["scale"], "history": [(h["kind"], h["scale"]) for h in hist],
                          "fresh_digest": fresh_dig[:160]})
         ctx.count("probe:" + probe["kind"])
         ctx.count("verdict:" + str(json.loads(fresh_dig)[0])[:12])
+        if hist and hist[0]["kind"] == "allocfirst":
+            ctx.count("history-starts-with-allocation")
         same, exact = digests_equal(fresh_dig, hist_dig)
-        # tolerance interval spanned by the proposals (history + probe)
-        vals = [v for v in (proposal_value(p) for p in hist_props) if v is not None and v > 0]
-        vals += [st[0] for st in hist_states if st[0] > 0] + [st[0] for st in fresh_states if st[0] > 0]
         if same:
             ctx.drift += 0 if exact else 1
         else:
@@ -748,11 +825,15 @@ def run(ctx: Ctx) -> None:
             legit = [h["proposal"] for h in hist if "proposal" in h] + ([probe["proposal"]] if "proposal" in probe else [])
             inforce = hist_states[-1][0]
             explained = any(abs(inforce - v) <= 1e-9 * v for v in legit)   # the sticky mechanism, nothing else
-            if explained and probe["kind"] in ("netlist", "die", "alloc", "legal"):
+            by_tolerance_alone = i in control and digests_equal(control[i], hist_dig)[0]
+            ctx.count("differs:tolerance-alone" if by_tolerance_alone else "differs:NOT-explained-by-tolerance")
+            if explained and by_tolerance_alone and probe["kind"] in ("netlist", "die", "alloc", "alloctext", "allocfirst", "legal"):
                 lo, hi = min(legit), max(legit)
                 if not robust(probe, lo, hi):
                     finding = "C20-sticky-tolerance-nonrobust-design"
-            ctx.spec_fail("history_indep", inp, {"fresh": fresh_dig[:600], "after_history": hist_dig[:600]},
+            ctx.spec_fail("history_indep", inp, {"fresh": fresh_dig[:600], "after_history": hist_dig[:600],
+                                                 "control_with_only_the_tolerance_preset": (control.get(i) or "")[:600],
+                                                 "tolerance_alone_explains": by_tolerance_alone},
                           size=len(hist), finding=finding)
         # spec on implementation: the tolerance in force after the history is the proposal of the FIRST design that
         # carries one (sticky), computed on the spec side from the generated data
@@ -764,14 +845,32 @@ def run(ctx: Ctx) -> None:
                 ctx.spec_fail("tolerance_is_a_design_proposal", inp, {"in_force": got, "proposals": legit_seq[:6]}, size=len(hist))
         elif got >= 0:
             ctx.spec_fail("tolerance_untouched_by_non_geometric_ops", inp, {"in_force": got}, size=len(hist))
-        # correspondence of the tolerance state with the model (only kinds whose proposal we can reconstruct)
-        if all((p is not None) for p in hist_props) and hist_props:
-            reqs.append(model_request(hist_props))
+        # correspondence of the tolerance state with the model.  An operation whose proposal could not be reconstructed
+        # (sat / strop never propose; a rejected design may or may not have reached its guarded set_epsilon) is a no-op of
+        # the model exactly when it left the observed state unchanged; otherwise the case is not modellable.
+        ops = list(hist) + [probe]
+        seq, ok = [], True
+        prev = [-1.0, -1.0]
+        for op, pr, st in zip(ops, hist_props, hist_states):
+            if pr is not None:
+                seq.append(pr)
+            elif st != prev:
+                ok = False
+                break
+            elif op["kind"] in ("sat", "strop"):
+                pass
+            prev = st
+        for op, st0, st1 in zip(ops, [[-1.0, -1.0]] + hist_states, hist_states):
+            if op["kind"] in ("sat", "strop") and st0 != st1:
+                ctx.disagree("eps-untouched-by-sat-strop", inp, st1, st0, size=len(hist))
+        if ok:
+            reqs.append(model_request(seq))
             expect.append((inp, hist_states[-1]))
             ctx.count("eps-state-compared")
-        elif all(h["kind"] in ("sat", "strop") for h in hist) and probe["kind"] in ("sat", "strop"):
-            if hist_states[-1] != [-1.0, -1.0]:
-                ctx.disagree("eps-untouched-by-sat-strop", inp, hist_states[-1], [-1.0, -1.0], size=len(hist))
+            for pr in seq:
+                ctx.count("eps-proposal:" + pr[0])
+        else:
+            ctx.count("eps-state-not-modellable(rejected design changed the state)")
     replies = ctx.model(reqs)
     if replies is None:
         ctx.notes.append("model driver unavailable: tolerance-state correspondence not run")
@@ -780,6 +879,25 @@ def run(ctx: Ctx) -> None:
         impl = "none" if st[0] < 0 else f"{f2hex(st[0])} {f2hex(st[1])}"
         if impl != rep:
             ctx.disagree("eps-state", inp, impl, rep, size=len(inp["history"]))
+
+
+def child_control(task):
+    """fresh forked interpreter in which ONLY the tolerances are preset (to what the history left in force), then the
+    probe: if this reproduces the after-history digest, the tolerance alone explains the difference."""
+    (dist, area), probe = task
+    import warnings
+    warnings.simplefilter("ignore")
+    from frame.geometry.geometry import Rectangle
+    import io
+    import contextlib
+    with contextlib.redirect_stdout(io.StringIO()):
+        if dist >= 0:
+            Rectangle.set_epsilon(dist, area)
+        try:
+            dig, _ = run_op(probe)
+        except Exception as ex:
+            dig = ["exception", type(ex).__name__]
+    return json.dumps(dig)
 
 
 def regs_stream(ctx: Ctx, reg_tasks, reg_results) -> None:
@@ -807,6 +925,11 @@ def regs_stream(ctx: Ctx, reg_tasks, reg_results) -> None:
                 ctx.spec_fail("slack_read_is_last_installed", inp, {"installed": last, "read": o}, size=len(ops))
         if rep is not None:
             rep = rep.replace("err:NameError", "err")
+            if "=na" in impl:   # an observation point is missing: compare the fields that are there
+                keep = [i for i, f in enumerate(impl.split(" | ")[1].split(" ")) if not f.endswith("=na")]
+                cut = lambda t: t.split(" | ")[0] + " | " + " ".join(f for i, f in enumerate(t.split(" | ")[1].split(" ")) if i in keep)
+                impl, rep = cut(impl), cut(rep)
+                ctx.count("regs:observation-point-missing")
             if rep != impl:
                 ctx.disagree("regs", inp, impl, rep, size=len(ops))
     if replies is None:
@@ -825,4 +948,9 @@ def replay(ctx: Ctx, body: dict) -> None:
         r = pool.map(child, [([], inp["probe"]), (inp["history"], inp["probe"])], chunksize=1)
     same, _ = digests_equal(r[0][0], r[1][0])
     if not same:
-        ctx.spec_fail("history_indep", inp, {"fresh": r[0][0][:600], "after_history": r[1][0][:600]})
+        st = r[1][1]
+        with mpctx.Pool(processes=1, maxtasksperchild=1) as pool:
+            c = pool.map(child_control, [((st[-2] if len(st) >= 2 else [-1.0, -1.0]), inp["probe"])], chunksize=1)[0]
+        ctx.spec_fail("history_indep", inp, {"fresh": r[0][0][:600], "after_history": r[1][0][:600],
+                                             "control_with_only_the_tolerance_preset": c[:600],
+                                             "tolerance_alone_explains": digests_equal(c, r[1][0])[0]})
